@@ -139,8 +139,9 @@ Print Assumptions c13_net_fee_flow.
 
 (* the collector's custody account holds, for every asset, at least the sum over any
    duplicate-free list of apps of the recorded net fees - after every history outside the
-   known-finding classes kf_C13_1 (generation-2 penalty booked under the collateral asset),
-   kf_C13_2 (generation-2 surplus close) and kf_C13_3 (generation-2 debt close) *)
+   known-finding classes kf_C13_2 (generation-2 surplus close) and kf_C13_3 (generation-2 debt
+   close); the former class kf_C13_1 (generation-2 penalty booked under the collateral asset) is
+   repaired and no longer excluded *)
 Theorem c13_collector_backed : forall assets apps funds ops la ld d,
   forallb valid_fund funds = true -> forallb valid_op ops = true -> forallb kf_free ops = true -> NoDup la ->
   let s := run (genesis assets apps funds) ops in
@@ -155,14 +156,14 @@ Print Assumptions c13_collector_backed.
 (* ---- inside the classes the clause is false: witnesses (replayed on the real keepers by the
    harness's directed cases) ---- *)
 
-(* C13-F1: a generation-2 dutch close pays a 120000 penalty in the debt denom (asset 3) and books
-   it under the collateral asset (2): net_fee(1, 2) = 120000 with no coin of asset 2 *)
-Theorem c13_collector_backed_refuted_penalty :
-  forallb valid_op ex_kf1_ops = true /\ last_kf kf_C13_1 ex_kf1_ops = true /\
-  holds_C13_backed [1; 2] [1; 2; 3] (run ex_genesis ex_kf1_ops) = false /\
-  holds_C13_flow [1; 2] [1; 2; 3] ex_genesis (V2Penalty 1 2 3 120000) (run ex_genesis ex_kf1_ops) = false.
-Proof. exact kf1_refuted. Qed.
-Print Assumptions c13_collector_backed_refuted_penalty.
+(* C13-F1 (repaired in /repo, fix: PENDING): a generation-2 dutch close pays a 120000 penalty in the
+   debt denom (asset 3); it is now booked under the debt asset, so the former witness is backed *)
+Example c13_penalty_regression :
+  forallb valid_op ex_kf1_ops = true /\ forallb kf_free ex_kf1_ops = true /\
+  holds_C13_backed [1; 2] [1; 2; 3] (run ex_genesis ex_kf1_ops) = true /\
+  holds_C13_flow [1; 2] [1; 2; 3] ex_genesis (V2Penalty 1 2 3 120000) (run ex_genesis ex_kf1_ops) = true /\
+  nf_val (cs (run ex_genesis ex_kf1_ops)) 1 3 = 120000 /\ nf_val (cs (run ex_genesis ex_kf1_ops)) 1 2 = 0.
+Proof. exact kf1_regression. Qed.
 
 (* C13-F2: a generation-2 surplus auction: the start takes the lot out of the collector and the
    books, the close takes the lot out of the collector AGAIN and re-credits the books: backed
